@@ -16,7 +16,7 @@ TECHNIQUE = "runtime twin monitor: batch-trained vs chunk-trained bandit, genera
 RULE = ("45 policy combinations (TreeBandit and scale=True excluded by the property) x random splits of n<=30 rows into "
         "1-8 consecutive chunks incl. single-row chunks and chunks omitting arms; dyadic rewards, integer-grid contexts; "
         "non-trivial = >=2 chunks with a chunk omitting an arm observed before; distinct = (combo, chunk sizes, omitted pattern)")
-BUDGET = {"quick": {"cases": 45 * 8, "shards": 8}, "thorough": {"cases": 45 * 300, "shards": 16, "wall_s": 2400}}
+BUDGET = {"quick": {"cases": 45 * 24, "shards": 16}, "thorough": {"cases": 45 * 600, "shards": 16, "wall_s": 3600}}
 MIN = {"quick": {"evaluations": 300, "nontrivial": 100}, "thorough": {"evaluations": 10000, "nontrivial": 3000}}
 ASSUMPTIONS = ["exactly summable training data (dyadic rewards, small-integer contexts) where bit-for-bit is demanded",
                "KNearest k <= rows of the complete history; Clusters prefix has >= n_clusters distinct rows",
